@@ -90,12 +90,12 @@ class C15(Check):
                  "deliberate raise and %-format of None is an error) of the Ethernet/VLAN/LLC-SNAP/ARP/IPv4/ICMP/TCP(+options)/UDP/LLDP parse, pack "
                  "and print paths and the MPLS/EAPOL/EAP/IPv6(+extension headers)/ICMPv6(+NDP)/IGMP/GRE/VXLAN/RIP/DNS/DHCP parse paths + differential correspondence of the compiled model against the real classes on exhaustive truncation / "
                  "single-byte corruption / structure-aware / random frames + independent 'nothing raises, progress recorded' oracle on all 21 parsers")
-    rule = ("case = one byte string offered to ethernet(raw=...): a valid frame of the 123-frame corpus (all 21 modules; incl. realistic TCP SYN / SYN-ACK "
+    rule = ("case = one byte string offered to ethernet(raw=...): a valid frame of the 125-frame corpus (all 21 modules; incl. realistic TCP SYN / SYN-ACK "
             "option layouts and IGMP v1/v2/v3 queries and reports), every truncation of it (ICMPv6 / IGMP: also with the checksum recomputed), the payload-less "
             "TCP segments whose last option (every kind incl. MPTCP with every subtype, every length) starts in the last 1..4 header bytes, ALL 256 values at "
             "every protocol-selector / type / code / length / option-kind / option-length byte of every corpus frame and at every header byte of the "
             "checksum-verified IGMP / ICMPv6 messages with the IPv4-header / IGMP / ICMPv6 checksum recomputed (both tiers, not sliced), all 256 values at "
-            "the other header-boundary offsets and the 8 single-bit flips elsewhere (every 16th in the quick tier, all in the thorough tier; mutants behind a "
+            "the other header-boundary offsets and the 8 single-bit flips elsewhere (every 32nd in the quick tier, all in the thorough tier; mutants behind a "
             "verified checksum also with the checksum recomputed), structure-aware mutants (length fields, option/TLV lengths, header-length nibbles, DNS "
             "pointers, nesting) or random bytes; distinct = sha1 of the frame; non-trivial = ethernet header parsed and at least one further parser entered")
 
@@ -455,9 +455,9 @@ class C15(Check):
 
     @staticmethod
     def _with_handlers(case):
-        """the handler oracle runs on the fixed corpus and on one generated case in eight (it costs as much as everything else together)"""
+        """the handler oracle runs on the fixed corpus and on one generated case in sixteen (it costs as much as everything else together)"""
         how = case.get("how", "")
-        return not how.startswith(("key", "set", "marks", "splice", "indel", "random", "nest")) or int(case["hex"][-2:] or "0", 16) % 8 == 3
+        return not how.startswith(("key", "set", "marks", "splice", "indel", "random", "nest")) or int(case["hex"][-2:] or "0", 16) % 16 == 3
 
     def handlers(self, b):
         """Real PacketIn events for the frame into the handlers of a stock controller: `l2_learning.LearningSwitch._handle_PacketIn` (plain and
@@ -568,9 +568,9 @@ class C15(Check):
 
     # ------------------------------------------------------------------ model side
     def model_request(self, case):
-        # the phase-1 model (`Cfg.core`) is asked as well for the fixed corpus and one generated case in four
+        # the phase-1 model (`Cfg.core`) is asked as well for the fixed corpus and one generated case in eight
         how = case.get("how", "")
-        core = not how.startswith(("key", "set", "marks", "splice", "indel", "random", "nest")) or int(case["hex"][-2:] or "0", 16) % 4 == 0
+        core = not how.startswith(("key", "set", "marks", "splice", "indel", "random", "nest")) or int(case["hex"][-2:] or "0", 16) % 8 == 0
         return {"op": "parse", "cfg": "repaired", "raw": case["hex"], "core": core, "fix": self.fixes, "var": self.vars}
 
     @staticmethod
@@ -743,7 +743,7 @@ class C15(Check):
         for c, where in self.key_sweeps():
             skip.add(where); yield c
         # 2. the remaining single-byte corruption: exhaustive (thorough) / a deterministic slice of it (quick; the slice moves with the seed)
-        stride = 1 if tier == "thorough" else 16
+        stride = 1 if tier == "thorough" else 32
         phase = rng.randrange(stride)
         for j, (name, i, v) in enumerate(self.corruptions(skip)):
             if j % stride != phase: continue
@@ -755,7 +755,7 @@ class C15(Check):
             if h != g and self._l4off.get(name) is not None and i >= self._l4off[name]:
                 yield frame_case(h, "set+csum %s %d %02x" % (name, i, v))
         # 3. structure-aware and random
-        n = 8000 if tier == "quick" else 120000
+        n = 4000 if tier == "quick" else 120000
         for _ in range(n):
             yield self.g_structured(rng)
 
@@ -857,9 +857,9 @@ C15.level_text = (
     "layer is defined, phase-2 classes included (print_total_partial, print_total); pack() of any result made of phase-1 classes is defined (repack_total_partial); the "
     "phase-1 model returns what the total C14 parser returns (refines_c14). Each finding K5..K14 has a decided witness that parses once its repair is in "
     "(known_k*, known_witnesses_repaired), the guard has one (nesting_guard_witness), and five defects of the tree before the phase-1 repairs have theirs. Every run "
-    "re-checks BOTH models (phase-2 parsers modelled / left foreign) against the real classes on every truncation and single-byte corruption of 123 valid frames "
+    "re-checks BOTH models (phase-2 parsers modelled / left foreign) against the real classes on every truncation and single-byte corruption of 125 valid frames "
     "covering all 21 modules, evaluates the 'nothing raises, progress recorded' oracle on parse, PacketIn.parsed, pack(), str(), dump(), and raises real PacketIn "
-    "events for the corpus and one generated frame in eight into the l2_learning (plain and transparent; flood, drop and flow-install paths with "
+    "events for the corpus and one generated frame in sixteen into the l2_learning (plain and transparent; flood, drop and flow-install paths with "
     "ofp_match.from_packet) and discovery handlers.")
 C15.level_note = (
     "The theorems are about the hand-written model Model/PacketParse.lean; they are tied to the code only by the differential run. PARTIAL: what a TCP segment "
